@@ -80,6 +80,8 @@ class HeapMixin:
                 return BoundMethod(obj, attr)
             if attr in obj.fields:
                 v = obj.fields[attr]
+                if type(v).__name__ == "LazyUnion":
+                    v = self.materialise(obj, attr)
                 if v is UNSET:
                     raise mk_exc(AttributeError, f"object has no attribute '{attr}'", where=fr.where())
                 if isinstance(v, SymMaybe):
@@ -490,6 +492,14 @@ class HeapMixin:
             return z3.Contains(str_to_z3(container), str_to_z3(item))
         if isinstance(container, (SymSeq, PList)):
             seq = ops.to_seq(ctx, container)
+            if seq.elem in ("str", "bstr") and isinstance(item, SymAny):
+                # an application supplied value looked up in a list of strings: a member only if
+                # it is a string of that kind (no exception otherwise: == between types is False)
+                want = "str" if seq.elem == "str" else "bytes"
+                p = ops.any_proj(ctx, item, want)
+                if isinstance(p, SymStr):
+                    return z3.And(ops.any_tag_is(item, want), z3.Contains(seq.e, z3.Unit(p.e)))
+                return False
             if seq.elem in ("str", "bstr"):
                 return z3.Contains(seq.e, z3.Unit(str_to_z3(item)))
             if seq.elem == "pair" and isinstance(item, tuple):
